@@ -756,6 +756,64 @@ func init() {
 			return nil
 		},
 
+		// ---------------- web framework contract stubs (C16)
+		// http.Error(w, msg, code): "replies to the request with the specified
+		// error message and HTTP code": modelled as w.WriteHeader(code) + w.Write(msg).
+		"net/http.Error": func(fr *frame, a []value) value {
+			w := a[0].(iface)
+			if m := fr.i.findMethod(w.t, "WriteHeader"); m != nil {
+				call(fr.i, fr, token.NoPos, m, []value{w.v, a[2]})
+			}
+			if m := fr.i.findMethod(w.t, "Write"); m != nil {
+				msg := a[1].(string)
+				b := make([]value, len(msg))
+				for k := range b {
+					b[k] = msg[k]
+				}
+				call(fr.i, fr, token.NoPos, m, []value{w.v, b})
+			}
+			return nil
+		},
+		"github.com/gin-gonic/gin/internal/bytesconv.StringToBytes": func(fr *frame, a []value) value {
+			str := a[0].(string)
+			b := make([]value, len(str))
+			for k := range b {
+				b[k] = str[k]
+			}
+			return b
+		},
+		"github.com/gin-gonic/gin/internal/bytesconv.BytesToString": func(fr *frame, a []value) value {
+			bs := a[0].([]value)
+			b := make([]byte, len(bs))
+			for k := range bs {
+				b[k] = bs[k].(byte)
+			}
+			return string(b)
+		},
+		// sync.Pool: Get always builds a fresh object with New; Put drops it
+		"(*sync.Pool).Get": func(fr *frame, a []value) value {
+			pool := (*a[0].(*value)).(structure)
+			newFn := pool[len(pool)-1]
+			if f, ok := newFn.(*ssa.Function); ok && f == nil {
+				return iface{}
+			}
+			return call(fr.i, fr, token.NoPos, newFn, nil)
+		},
+		"(*sync.Pool).Put": func(fr *frame, a []value) value { return nil },
+		// gin renders JSON bodies through encoding/json + reflection; the body is
+		// irrelevant to C16, so: render.WriteJSON(w, obj) writes "{}" to w.
+		"github.com/gin-gonic/gin/render.WriteJSON": func(fr *frame, a []value) value {
+			w := a[0].(iface)
+			if m := fr.i.findMethod(w.t, "Write"); m != nil {
+				call(fr.i, fr, token.NoPos, m, []value{w.v, []value{byte('{'), byte('}')}})
+			}
+			return iface{}
+		},
+		"log/slog.Error": func(fr *frame, a []value) value { return nil },
+		"log/slog.Warn":  func(fr *frame, a []value) value { return nil },
+		"log/slog.Info":  func(fr *frame, a []value) value { return nil },
+		"log/slog.Debug": func(fr *frame, a []value) value { return nil },
+
 		// ---------------- sync.Once / WaitGroup (harness side)
 		"(*sync.Once).Do": func(fr *frame, a []value) value {
 			p := a[0].(*value)
